@@ -74,6 +74,47 @@ func (in *Interp) mutexOf(p Value) *mutexSt {
 	return s
 }
 
+// bytesCompare: lexicographic comparison; opaque byte strings of concrete identity are ordered by a symbolic
+// rank (an arbitrary but fixed strict total order, as for content identifiers); against the empty string
+// they are greater.
+func (in *Interp) bytesCompare(x, y Value) Value {
+	c := in.Ctx
+	tx, ox := opaqueOfBytes(x)
+	ty, oy := opaqueOfBytes(y)
+	if !ox && !oy {
+		bx, ok1 := in.byteTerms(x)
+		by, ok2 := in.byteTerms(y)
+		if !ok1 || !ok2 {
+			unsupported("bytes.Compare on mixed bytes")
+		}
+		return mkSymInt(in.lexCompare(bx, by))
+	}
+	if ox && oy {
+		kx, okx := otermKey(tx)
+		ky, oky := otermKey(ty)
+		if !okx || !oky {
+			unsupported("bytes.Compare on opaque bytes of symbolic identity")
+		}
+		if kx == ky {
+			return mkInt(0, 64)
+		}
+		ax, ay := in.newAtom("bytes", kx), in.newAtom("bytes", ky)
+		lt := c.Cmp(smt.OpULt, ax.RankOf(in, "bin"), ay.RankOf(in, "bin"))
+		return mkSymInt(c.Ite(lt, c.BV(^uint64(0), 64), c.BV(1, 64)))
+	}
+	// opaque vs plain: only the comparison with the empty string is defined
+	plain := y
+	sign := uint64(1)
+	if oy {
+		plain, sign = x, ^uint64(0)
+	}
+	if plain.R == nil || len(plain.R.(*SliceV).S) == 0 {
+		return mkInt(sign, 64)
+	}
+	unsupported("bytes.Compare of an opaque value with plain bytes")
+	return Value{}
+}
+
 // gatePassed records the order in which goroutines that went through vx.Gate enter their next critical section.
 func (in *Interp) gatePassed() {
 	if g := in.cur; g != nil && g.gateKey != "" {
@@ -222,12 +263,10 @@ func init() {
 		},
 		// ---- compare ----
 		"bytes.Compare": func(in *Interp, fr *Frame, a []Value) (Value, bool) {
-			x, ok1 := in.byteTerms(a[0])
-			y, ok2 := in.byteTerms(a[1])
-			if !ok1 || !ok2 {
-				unsupported("bytes.Compare on opaque bytes")
-			}
-			return mkSymInt(in.lexCompare(x, y)), true
+			return in.bytesCompare(a[0], a[1]), true
+		},
+		"bytes.Equal": func(in *Interp, fr *Frame, a []Value) (Value, bool) {
+			return mkSymBool(in.bytesEqTerm(a[0], a[1])), true
 		},
 		"strings.Compare": func(in *Interp, fr *Frame, a []Value) (Value, bool) {
 			return in.strCompare(a[0], a[1]), true
